@@ -31,6 +31,9 @@ def _task(job):
         except nmfu.NMFUError as e:
             rec["rejected"] = type(e).__name__
             return rec
+        except tv.InternalCompilerError as e:
+            rec["rejected"] = "INTERNAL " + str(e)[:80]
+            return rec
         T = tv.TV(c)
         T.run()
         if _CTX.get("post"):
